@@ -159,6 +159,10 @@ func (d *decodingReader) Read(ctx context.Context, f frame.Frame) (n int, err er
 			}
 			return 0, d.err
 		}
+		if n < 0 {
+			d.err = errors.E(errors.Integrity, fmt.Errorf("invalid batch length %d", n))
+			return 0, d.err
+		}
 		// In most cases, we should be able to decode directly into the
 		// provided frame without any buffering.
 		if n <= f.Len() {
